@@ -879,7 +879,7 @@ func TestMetrics(t *testing.T) {
 		Property: "C13", Check: "otlp_metrics_grpc_http",
 		Rule: "one ResourceMetrics with 0..4 scopes (empty, siblings differing in one component, without metrics) x 0..4 uniquely named metrics over {Gauge, Sum, Histogram, ExponentialHistogram} x {int64, float64} and Summary, both temporalities, monotonic flag, 0..3 points with exemplars, Min/Max set or unset, boundary integers, NaN/Inf, unset/pre-epoch/2262 times; exported by otlpmetricgrpc and otlpmetrichttp (gzip on/off) to loopback collectors; " +
 			"non-trivial = >= 2 distinct scopes, or >= 1 boundary value (time <= epoch or unset or in the last second of int64 nanos, NaN/Inf, |int| > 2^53, count >= 2^63)",
-		Quick: 1500, Thorough: 15000,
+		Quick: 2000, Thorough: 30000,
 		Gen: genMetricCase, Run: runMetrics,
 	})
 }
